@@ -373,7 +373,7 @@ structure Exc where
   tag : Bytes
   what : ExcWhat
 
-/-- Until the repair 1dc4ea8 this list also held `Grantee.xsi:type` (Smithy: `xmlAttribute`; s3s read and wrote a
+/-- Until the repair 680006e this list also held `Grantee.xsi:type` (Smithy: `xmlAttribute`; s3s read and wrote a
 child element) and `Grant.Grantee` / `TargetGrant.Grantee` (Smithy: member-level `xmlNamespace`, the `xmlns:xsi`
 declaration; s3s never wrote it) — finding `xml-xsi-type`, fixed: the tables are compared with the Smithy model
 itself there now. -/
